@@ -4,6 +4,7 @@ package main
 
 import (
 	"fmt"
+	"math"
 	"strconv"
 	"strings"
 
@@ -508,6 +509,38 @@ func runC11(c *Ctx) {
 		}
 	}
 	c.derivedCorners("C11")
+	// overwriting a slot with a value that is Equal to what it holds but is another container (or differs only in
+	// the sign of zero / int vs float): the slot has to hold the new value — seen by identity and by a later change
+	m.Case("overwrite-equal")
+	for _, root := range []string{m.NewObject(gvStr("e"), gvOfTree(&Tree{K: '['}), gvStr("o"), gvOfTree(obj1("a", tInt(1))), gvStr("z"), gvFloat(0), gvStr("i"), gvInt(1),
+		gvStr("deep"), gvOfTree(obj1("l", list1(&Tree{K: '{'})))),
+		m.NewList(gvOfTree(&Tree{K: '['}), gvOfTree(obj1("a", tInt(1))), gvFloat(0), gvInt(1), gvOfTree(list1(obj1("l", &Tree{K: '['}))))} {
+		isObj := m.IsObj(root)
+		type w struct {
+			path string
+			g    *GV
+		}
+		freshL := m.NewList()
+		freshO := m.NewObject(gvStr("a"), gvInt(1))
+		freshL2 := m.NewList()
+		var ws []w
+		if isObj {
+			ws = []w{{".e", m.RefGV(freshL)}, {".o", m.RefGV(freshO)}, {".z", gvFloat(math.Copysign(0, -1))}, {".i", gvFloat(1)}, {".deep.l#0", m.RefGV(m.NewObject())}, {".deep.l", m.RefGV(freshL2)}}
+		} else {
+			ws = []w{{"#0", m.RefGV(freshL)}, {"#1", m.RefGV(freshO)}, {"#2", gvFloat(math.Copysign(0, -1))}, {"#3", gvFloat(1)}, {"#4#0.l", m.RefGV(freshL2)}}
+		}
+		for _, x := range ws {
+			c.writePath(root, x.path, x.g)
+			c.readPath(root, x.path)
+		}
+		// later changes through the stored values must show in the tree
+		m.Add(freshL, gvStr("later"))
+		m.OSet(freshO, gvStr("b"), gvInt(2))
+		m.Add(freshL2, gvInt(7))
+		for _, x := range ws {
+			c.readPath(root, x.path)
+		}
+	}
 	c.sharedBoxes()
 	c.growShrink()
 	// malformed paths on writes: SetTF / UnsetTF must panic (or be a no-op) and leave every container as it was
